@@ -204,6 +204,80 @@ def spec_expected(ops, emitted, wid):
     return out
 
 
+BOUNDARY_CPS = [0, 0x41, 0x7F, 0x80, 0xE9, 0x7FF, 0x800, 0x20AC, 0xD7FF, 0xE000, 0xFFFD, 0xFFFF, 0x10000, 0x1F600, 0x10FFFF]
+
+
+def utf8_correspondence(run, emitted_lines):
+    rng = run.rng
+    strings = [[], [0x41], BOUNDARY_CPS]
+    for _ in range(400 if run.thorough else 60):
+        k = rng.randrange(4)
+        n = rng.choice([1, 2, 5, 20])
+        if k == 0:
+            cps = [rng.choice(BOUNDARY_CPS) for _ in range(n)]
+        elif k == 1:
+            cps = [rng.choice([rng.randrange(0x80), rng.randrange(0x80, 0x800), rng.randrange(0x800, 0xD800),
+                               rng.randrange(0xE000, 0x10000), rng.randrange(0x10000, 0x110000)]) for _ in range(n)]
+        elif k == 2:
+            cps = [ord(ch) for ch in rng.choice(TEXTS)]
+        else:
+            cps = [rng.randrange(0x20, 0x7F) for _ in range(n)]
+        strings.append(cps)
+    blobs = [b"", b"\xc0\x80", b"\xc1\xbf", b"\xed\xa0\x80", b"\xed\x9f\xbf", b"\xf4\x90\x80\x80", b"\xf4\x8f\xbf\xbf", b"\xf5\x80\x80\x80",
+             b"\x80", b"\xe0\x9f\xbf", b"\xe0\xa0\x80", b"\xf0\x8f\xbf\xbf", b"\xf0\x90\x80\x80", b"\xe2\x82", b"a\xe2\x82\xacb", b"\xff", b"\xc3"]
+    for cps in strings[:40]:
+        good = "".join(map(chr, cps)).encode("utf-8")
+        blobs.append(good)
+        if good:
+            b = bytearray(good)
+            k = rng.randrange(3)
+            if k == 0:
+                b[rng.randrange(len(b))] = rng.randrange(256)
+            elif k == 1:
+                del b[rng.randrange(len(b))]
+            else:
+                b.insert(rng.randrange(len(b) + 1), rng.choice([0x80, 0xBF, 0xC0, 0xE0, 0xF0, 0xF8]))
+            blobs.append(bytes(b))
+    nonascii = [l for l in emitted_lines if any(c >= 0x80 for c in l)]
+    blobs += nonascii[:60] + emitted_lines[:10]
+    body = "Open Scope N_scope.\n"
+    for cps in strings:
+        body += "Eval vm_compute in (encode %s).\n" % g_list([str(c) for c in cps])
+    for b in blobs:
+        body += "Eval vm_compute in (match decode %s with Some l => (1, l) | None => (0, []) end, match text_write %s with Some l => (1, l) | None => (0, []) end).\n" % (
+            g_list([str(c) for c in b]), g_list([str(c) for c in b]))
+    vals = []
+    for rc, out in coq_eval_many(PID, [("utf8", body)], "From GS Require Import model.Utf8.\n"):
+        if rc != 0:
+            run.log("model evaluation failed:\n" + out[-1500:])
+            run.violation("the model (coq/model/Utf8.v) could not be evaluated", dict(theorem="C14_utf8_roundtrip"), no_input=True)
+            return None, 0
+        vals.extend(parse_evals(out))
+    if len(vals) != len(strings) + len(blobs):
+        run.violation("the model (coq/model/Utf8.v) could not be evaluated", dict(theorem="C14_utf8_roundtrip"), no_input=True)
+        return None, 0
+    for cps, val in zip(strings, vals):
+        got = bytes(parse_term(val))
+        want = "".join(map(chr, cps)).encode("utf-8")
+        if got != want:
+            run.violation("model and CPython disagree on the UTF-8 encoding of %r: model %r, str.encode %r" % (cps, got, want),
+                          dict(code_points=cps, theorem="C14_utf8_roundtrip (coq/props/C14.v)"), no_input=True)
+            return False, 0
+    for b, val in zip(blobs, vals[len(strings):]):
+        dok, dl, (tok, tl) = parse_term(val)      # Coq prints ((a, b), c) as (a, b, c)
+        try:
+            want = [ord(ch) for ch in b.decode("utf-8")]
+        except UnicodeDecodeError:
+            want = None
+        got = list(dl) if dok == 1 else None
+        tw = bytes(tl) if tok == 1 else None
+        if got != want or tw != (b if want is not None else None):
+            run.violation("model and CPython disagree on decoding %r: model %r / text stream %r, bytes.decode %r" % (b, got, tw, want),
+                          dict(bytes=list(b), theorem="C14_utf8_decode_strict / C14_text_stream_identity (coq/props/C14.v)"), no_input=True)
+            return False, 0
+    return True, len(strings) + len(blobs)
+
+
 def main():
     run = Run(PID)
     st = standard_proof_phase(run, PID)
@@ -300,12 +374,15 @@ def main():
                     found = True
             else:
                 validated += 1
+    # UTF-8 (model/Utf8.v, C14_utf8_*): the model's encoder / strict decoder against CPython's, on structured strings, on
+    # malformed byte strings, and on the non-ASCII lines the builder actually emitted above
+    utf_ok, utf_n = utf8_correspondence(run, [l for (_, emitted, _) in cases for ls in emitted for l in ls])
     proof_broken_violation(run, st, found)
     run.cov["rule"] = ("histories of add_writer/remove_writer/emitting calls (comment with non-ASCII text, move, tool_on+off, "
                        "emergency_halt = 1..4 lines per call)/flush/teardown over up to 5 writers of 5 kinds (path file, "
                        "BytesIO, StringIO, UTF-8 text file object, custom recorder), any line ending; contents read back from "
                        "disk / streams. non-trivial = >= 2 writer kinds and >= 1 emitting call.")
-    run.finish(proof=st, extra=dict(input_distribution=dict(writer_kinds=dist), traces_validated_against_impl=validated))
+    run.finish(proof=st, extra=dict(input_distribution=dict(writer_kinds=dist, utf8_cases=utf_n), traces_validated_against_impl=validated))
 
 
 if __name__ == "__main__":
